@@ -132,8 +132,11 @@ fn real_main(args: Vec<String>) -> i32 {
             if let Some(target) = args[3].strip_prefix("hf:") {
                 let fail = hfsupport::replay(target, &bytes).err().unwrap_or_else(|| Fail::new("fuzz-not-reproduced", "the saved input passes the oracle outside honggfuzz"));
                 let known = r.known_key(&fail.sig).is_some();
+                // a saved input that passes the oracle here was saved for a reason the oracle does not
+                // see: honggfuzz's 60 s wall-clock timeout on a stalled machine. Not a counter-example.
+                let not_reproduced = fail.sig == "fuzz-not-reproduced";
                 let path = write_replay(&r, &Violation { check: format!("hfuzz_{target}"), case: serde_json::to_value(&bytes).unwrap(), fail });
-                println!("{}{path}", if known { "KNOWN " } else { "" });
+                println!("{}{path}", if known { "KNOWN " } else if not_reproduced { "NOTREPRO " } else { "" });
                 return 0;
             }
             let fail = if args.iter().any(|a| a == "--hang") {
